@@ -11,7 +11,8 @@ from ..veq import veq, norm
 
 LEVEL = "exploration"
 RULE = ("member lists (<=4 quick, <=6 thorough) mixing fixed-size, context-sized, length-prefixed (incl. includelength, element-count prefixed) and "
-        "unsizable members, named and unnamed, no cross references; canonical inputs (+trailing bytes) and byte-mutated inputs that the eager twin "
+        "unsizable members (also length-prefixed members over unsizable elements / with unsizable counts), named and unnamed, no cross references; lazy "
+        "structures inside eager repeaters/structures with members sized from the enclosing scope (_index, keyword context, outer field); canonical inputs (+trailing bytes) and byte-mutated inputs that the eager twin "
         "still accepts; stream offsets 0 and k; access histories: ALL permutations of member accesses (<=4 members quick, <=6 thorough) and random "
         "sequences with repetition, through [name], [index] (negative too for arrays), attribute, keys/values/items, iteration, slicing; accesses "
         "during the surrounding parse (Computed touching a lazy member) and after it; build from the lazy result. non-trivial = history that is "
